@@ -17,6 +17,10 @@ const (
 	LevelTest = "test" // LevelStd + testing
 )
 
+// linknamedStd are the std packages garble lists in addition to a build's own
+// dependencies (observed at the stub go command, see C20).
+var linknamedStd = strings.Fields("arena crypto/fips140 crypto/internal/boring crypto/internal/boring/bcache crypto/internal/fips140 crypto/internal/sysrand crypto/rand crypto/subtle internal/bytealg internal/coverage/cfile internal/cpu internal/godebug internal/poll internal/race internal/reflectlite internal/runtime/atomic internal/runtime/cgroup internal/runtime/maps internal/sync internal/synctest internal/syscall/unix maps net os os/signal plugin reflect runtime runtime/debug runtime/metrics runtime/pprof runtime/secret runtime/trace sync sync/atomic syscall testing/synctest time unique weak")
+
 var probeImports = map[string][]string{
 	LevelRT:   nil,
 	LevelStd:  {"bytes", "encoding/json", "errors", "fmt", "os", "reflect", "runtime/debug", "sort", "strconv", "strings", "sync", "time", "unicode/utf8", "crypto/sha256", "encoding/hex"},
@@ -60,7 +64,7 @@ func withLock(path string, f func()) {
 // std packages of level "test", built with garble's fixed flags. It depends
 // only on the toolchain and is created on first use.
 func PlainBase() string {
-	dir := filepath.Join(WorkRoot(), "plainbase")
+	dir := filepath.Join(WorkRoot(), "plainbase2")
 	done := filepath.Join(dir, ".done")
 	if _, err := os.Stat(done); err == nil {
 		return filepath.Join(dir, "gocache")
@@ -83,6 +87,13 @@ func PlainBase() string {
 		if !r.OK() {
 			panic(Infraf("plain base test build failed:\n%s", r.Brief()))
 		}
+		// garble also lists (with -export) the packages the runtime reaches through
+		// linknames; compile their regular export data once here, so that commands
+		// which only list (garble map, garble reverse) find everything cached.
+		r = box.Go(mod, nil, append([]string{"list", "-export", "-compiled", "-e", "-deps", "-trimpath", "-buildvcs=false", "-f", "{{.ImportPath}}", "."}, linknamedStd...)...)
+		if r.Exit != 0 && !strings.Contains(r.Stderr, "is not in std") && !strings.Contains(r.Stderr, "build constraints exclude") {
+			panic(Infraf("plain base listing of linknamed packages failed:\n%s", r.Brief()))
+		}
 		RemoveAll(box.Root)
 		Must(os.WriteFile(done, []byte(time.Now().Format(time.RFC3339)), 0o644))
 	})
@@ -101,7 +112,7 @@ type Base struct {
 // bases are pruned.
 func ConfigBase(garbleBin, garbleHash string, cfg Config, level string) Base {
 	root := filepath.Join(WorkRoot(), "cfgbase", garbleHash)
-	name := StrSHA(cfg.Key() + "|" + level)
+	name := StrSHA(cfg.Key() + "|" + level + "|dbg1")
 	dir := filepath.Join(root, name)
 	base := Base{GoCache: filepath.Join(dir, "gocache"), GarbleCache: filepath.Join(dir, "garblecache")}
 	done := filepath.Join(dir, ".done")
@@ -123,7 +134,7 @@ func ConfigBase(garbleBin, garbleHash string, cfg Config, level string) Base {
 			if level == LevelTest {
 				lower = LevelStd
 			}
-			ldir := filepath.Join(root, StrSHA(cfg.Key()+"|"+lower))
+			ldir := filepath.Join(root, StrSHA(cfg.Key()+"|"+lower+"|dbg1"))
 			if _, err := os.Stat(filepath.Join(ldir, ".done")); err == nil {
 				src = Base{GoCache: filepath.Join(ldir, "gocache"), GarbleCache: filepath.Join(ldir, "garblecache")}
 			}
@@ -140,18 +151,21 @@ func ConfigBase(garbleBin, garbleHash string, cfg Config, level string) Base {
 		box.GoCache, box.GarbleCache = base.GoCache, base.GarbleCache
 		mod := filepath.Join(dir, "probe")
 		probeModule(mod, level)
-		r := box.Garble(cfg, mod, "build", "-o", filepath.Join(dir, "probe.bin"), ".")
+		// Built with -debugdir so that the cache also holds the debug artifacts of
+		// the std packages: later -debugdir builds then need no forced full rebuild.
+		r := box.GarbleX(cfg, mod, []string{"-debugdir=" + filepath.Join(dir, "probe-debugdir")}, nil, "build", "-o", filepath.Join(dir, "probe.bin"), ".")
 		if !r.OK() {
 			panic(Infraf("config base %s/%s build failed:\n%s", cfg.Key(), level, r.Brief()))
 		}
 		if level == LevelTest {
-			r = box.Garble(cfg, mod, "test", "-c", "-o", filepath.Join(dir, "probe.test"), ".")
+			r = box.GarbleX(cfg, mod, []string{"-debugdir=" + filepath.Join(dir, "probe-debugdir")}, nil, "test", "-c", "-o", filepath.Join(dir, "probe.test"), ".")
 			if !r.OK() {
 				panic(Infraf("config base %s/%s test build failed:\n%s", cfg.Key(), level, r.Brief()))
 			}
 		}
 		RemoveAll(box.Root)
 		RemoveAll(mod)
+		RemoveAll(filepath.Join(dir, "probe-debugdir"))
 		os.Remove(filepath.Join(dir, "probe.bin"))
 		os.Remove(filepath.Join(dir, "probe.test"))
 		Must(os.WriteFile(filepath.Join(dir, "config.txt"), []byte(cfg.Key()+" "+level+"\n"), 0o644))
@@ -221,5 +235,18 @@ func NewCaseBox(parent string, cfg Config, level string) *Box {
 	Must(err)
 	b := NewBox(root, bin)
 	b.FillBox(ConfigBase(bin, hash, cfg, level))
+	return b
+}
+
+// NewPlainCaseBox gives a case a box whose GOCACHE is a private copy of the
+// plain base and whose GARBLE_CACHE is empty: enough for commands that only
+// list and type-check (garble map, garble reverse).
+func NewPlainCaseBox(parent string) *Box {
+	bin, _ := GarbleBinary()
+	root, err := os.MkdirTemp(parent, "case-")
+	Must(err)
+	b := NewBox(root, bin)
+	CopyTree(PlainBase(), b.GoCache)
+	Must(os.MkdirAll(b.GarbleCache, 0o755))
 	return b
 }
